@@ -590,6 +590,16 @@ impl SyncAssetTransfer {
         fn len(c: &MeshCache) -> usize {
             c.read().map(|m| m.len()).unwrap_or(0)
         }
+        // the registry and its log are read under the registry's lock: one consistent moment
+        let (pending, registry_log) = {
+            let guard = self.pending.read();
+            let mut v: Vec<(u8, Uuid, usize)> = guard
+                .as_ref()
+                .map(|m| m.iter().map(|((c, id), e)| (*c, *id, e.under_way)).collect())
+                .unwrap_or_default();
+            v.sort();
+            (v, self.verif_log.lock().unwrap().clone())
+        };
         crate::verif::TransferStats {
             downloads_active: self.download_pool.active_count(),
             downloads_queued: self.download_pool.queued_count(),
@@ -599,16 +609,8 @@ impl SyncAssetTransfer {
             meshes_served: keys(&self.meshes),
             images_served: keys(&self.images),
             audios_served: keys(&self.audios),
-            pending: {
-                let mut v: Vec<(u8, Uuid, usize)> = self
-                    .pending
-                    .read()
-                    .map(|m| m.iter().map(|((c, id), e)| (*c, *id, e.under_way)).collect())
-                    .unwrap_or_default();
-                v.sort();
-                v
-            },
-            registry_log: self.verif_log.lock().unwrap().clone(),
+            pending,
+            registry_log,
         }
     }
 
